@@ -1,6 +1,6 @@
 """C13 (partial): R-NDET, R-GLOB, R-PURE, R-OPT, R-PASS, FRESH, OUT-NAME, DATA-TAG."""
 from nk import report
-from rules import state, passes, listing
+from rules import state, passes, listing, lane
 from . import common
 
 EXPLANATION = (
@@ -18,5 +18,5 @@ def run(tier, t0):
     prog = common.program()
     cg = common.callgraph()
     results = [state.ndet(prog, cg, [common.ASM_MAIN, 'assemble_code']), state.glob(prog), state.pure(prog, cg),
-               state.opt(prog, cg), passes.rpass(prog, cg), state.fresh(prog), state.outname(prog), listing.data_tag(prog)]
+               state.opt(prog, cg), passes.rpass(prog, cg), state.fresh(prog), state.outname(prog), listing.data_tag(prog), lane.dl_width(prog)]
     return report.finish('C13', tier, results, EXPLANATION, [], common.TRUSTED, t0)
